@@ -107,7 +107,54 @@ fn run(cfg: &RunCfg) -> Report {
     with_ctx(&cfgs[0], |c0| {
         with_ctx(&cfgs[1], |c1| {
             with_ctx(&cfgs[2], |c2| {
+                // two of the three contexts get a UUID installed; the corpus below is extended with
+                // requests whose data echoes the receiving context's own identity
+                let uuids: [[u8; 16]; 3] = {
+                    let mut u = [[0u8; 16]; 3];
+                    crng.fill(&mut u[1]);
+                    u[2].copy_from_slice(&crng.pattern_bytes(16));
+                    u
+                };
+                c1.set_uuid(&uuids[1]);
+                c2.set_uuid(&uuids[2]);
                 let ctxs: [&MCTPSMBusContext; 3] = [c0, c1, c2];
+                {
+                    let mut erng = cfg.rng("echo");
+                    let echo_n = if small { 20 } else { 4000 };
+                    for i in 0..echo_n {
+                        let k = i % 3;
+                        let own = cfgs[k].addr & 0x7F;
+                        let data: Vec<u8> = match erng.below(5) {
+                            0 => uuids[k][..15].to_vec(),
+                            1 => uuids[k].to_vec(),
+                            2 => {
+                                let mut d = uuids[k].to_vec();
+                                d.push(erng.byte());
+                                d
+                            }
+                            3 => cfgs[k].types.clone(),
+                            _ => {
+                                if cfgs[k].vendors.is_empty() {
+                                    vec![]
+                                } else {
+                                    crate::refmodel::endpoint::Model::new(&cfgs[k]).vendor_field(erng.below(cfgs[k].vendors.len() as u64) as usize)
+                                }
+                            }
+                        };
+                        let cmd = match erng.below(3) {
+                            0 => 0x10,
+                            1 => erng.range(0x01, 0x14) as u8,
+                            _ => erng.byte(),
+                        };
+                        let rq = erng.chance(3, 4);
+                        let x = if rq {
+                            crate::refmodel::forge::ctrl_request(own, erng.byte() & 0x7F, erng.byte() & 0x1F, false, cmd, &data)
+                        } else {
+                            crate::refmodel::forge::ctrl_response(own, erng.byte() & 0x7F, erng.byte() & 0x1F, cmd, 0, &data)
+                        };
+                        check(ctxs[k], &cfgs[k], &x, 64 + (i % 5) * 40, i as u64, &mut rep);
+                    }
+                }
                 let mut k = 0usize;
                 for_each_input(cfg, "c11", &plan, &mut |x, rng| {
                     k = (k + 1) % 3;
